@@ -28,7 +28,8 @@ MANIFEST = dict(
     note="trusted: Coq kernel, extraction, OCaml driver, Rust harness, Python re as independent matcher for the column "
          "oracle (restricted pattern pool); utf8_valid is differentially tested against std::str::from_utf8 and "
          "Python's decoder, not proved against a Unicode specification; only-matching / per-match MULTI-LINE paths "
-         "are modelled and corresponded, no theorem; JSON round trip is for rg's configuration without -m; that the searcher's "
+         "have layout + record-origin theorems (every record = prelude with stated coordinates + stated input bytes), with "
+         "the known finding MultiLineOnlyMatchingColumnIsBlockRelative (column = offset in the block); JSON round trip is for rg's configuration without -m; that the searcher's "
          "events are the input's lines is C03's theorem (checked here by the oracle)",
     technique="Coq proof over executable models + extracted-model/implementation correspondence + input re-location oracle",
     design="§7 C09")
